@@ -24,6 +24,7 @@ Sca(n) == [k |-> "scalar", name |-> n, ifaces |-> <<>>, fields |-> <<>>, members
 Def(t) == [it |-> "def", t |-> t, target |-> ""]
 Ext(target, t) == [it |-> "ext", t |-> t, target |-> target]     \* t carries the additions, t.k the extension kind
 SchemaItem(q) == [it |-> "schema", t |-> Sca(q), target |-> q]
+DirItem(n, locs, as) == [it |-> "dir", t |-> [k |-> "directive", name |-> n, locs |-> locs, args |-> as], target |-> ""]
 Menu == <<
   Def(Obj("Query", <<>>, <<Fld("a", Named("Int"), <<ArgN("n", Named("Int"))>>, "")>>)),  \* 1 (argument with an explicit null default)
   Def(Ifc("Node", <<Fld("id", Named("ID"), <<>>, "")>>)),                                                   \* 2
@@ -70,7 +71,16 @@ Menu == <<
   \* 42-44: extension blocks of one target separated by a block of another target (needs 9)
   Ext("Root", Obj("Root", <<>>, <<Fld("r1", Named("Int"), <<>>, "")>>)),                                        \* 42
   Ext("Query", Obj("Query", <<>>, <<Fld("p1", Named("Int"), <<>>, "")>>)),                                      \* 43
-  Ext("Query", Obj("Query", <<>>, <<Fld("p2", Named("Int"), <<>>, "")>>))                                       \* 44
+  Ext("Query", Obj("Query", <<>>, <<Fld("p2", Named("Int"), <<>>, "")>>)),                                      \* 44
+  \* 45-47: DIRECTIVE DEFINITIONS (name, locations, arguments typed by built-in and by user-defined input types, defaults)
+  DirItem("tagged", <<"FIELD_DEFINITION", "OBJECT">>, <<Arg("n", Named("Int"))>>),                               \* 45
+  DirItem("role", <<"FIELD_DEFINITION">>, <<ArgL("e", Named("E"), "A"), ArgD("why", Named("String"))>>),           \* 46 argument typed by the enum (5), default A
+  DirItem("viaInput", <<"ENUM_VALUE", "QUERY">>, <<Arg("i", ListOf(Named("In2")))>>),                              \* 47 argument typed by the input type (6)
+  \* 48: an input type that refers to ITSELF through fields that carry defaults (null / the empty list)
+  Def(Inp("Tree", <<ArgN("not", Named("Tree")), ArgD("kids", ListOf(NN(Named("Tree")))), ArgD("depth", Named("Int"))>>)),  \* 48
+  \* 49: defaults at the two ends of the signed 32-bit range
+  Ext("Query", Obj("Query", <<>>, <<Fld("lim", Named("Int"), <<ArgL("lo", Named("Int"), "-2147483648"), ArgL("hi", Named("Int"), "2147483647")>>, "")>>)),  \* 49
+  DirItem("tagged", <<"ENUM">>, <<>>)                                                                            \* 50 a second definition of @tagged: invalid
 >>
 CONSTANT MenuIdx        \* the menu items that may be picked (the whole menu, or a focus on a few items with a larger MaxItems)
 CONSTANTS Slice, NSlices \* only the documents with (sum of the picked indices) % NSlices = Slice are printed for replay (all are model-checked)
@@ -89,6 +99,7 @@ Builtin == {"Int", "Float", "String", "Boolean", "ID"}
 Defs(doc) == SelectSeq(doc, LAMBDA x : x.it = "def")
 Exts(doc) == SelectSeq(doc, LAMBDA x : x.it = "ext")
 Schemas(doc) == SelectSeq(doc, LAMBDA x : x.it = "schema")
+DirDefs(doc) == SelectSeq(doc, LAMBDA x : x.it = "dir")
 SchemaExts(doc) == SelectSeq(doc, LAMBDA x : x.it = "schemaext")
 Names(ds) == [i \in 1..Len(ds) |-> ds[i].t.name]
 Dup(seq) == \E i, j \in 1..Len(seq) : i < j /\ seq[i] = seq[j]
@@ -100,7 +111,7 @@ Merge(t, exts) ==      \* apply extensions (already filtered by target, in docum
             !.members = @ \o FlattenSeq([i \in 1..Len(exts) |-> exts[i].t.members]),
             !.values = @ \o FlattenSeq([i \in 1..Len(exts) |-> exts[i].t.values])]
 Build(doc) ==
-  LET ds == Defs(doc)  xs == Exts(doc)  ss == Schemas(doc)
+  LET ds == Defs(doc)  xs == Exts(doc)  ss == Schemas(doc)  dd == DirDefs(doc)
       tnames == {Names(ds)[i] : i \in 1..Len(ds)}
       merged == [i \in 1..Len(ds) |-> Merge(ds[i].t, SelectSeq(xs, LAMBDA x : x.target = ds[i].t.name))]
       byName(n) == merged[CHOOSE i \in 1..Len(ds) : ds[i].t.name = n]
@@ -111,6 +122,12 @@ Build(doc) ==
                         /\ (merged[i].k # "input" => \A a \in 1..Len(merged[i].fields[f].args) : known(Inner(merged[i].fields[f].args[a].type)))
                    /\ \A m \in 1..Len(merged[i].members) : known(merged[i].members[m])
                    /\ \A m \in 1..Len(merged[i].ifaces) : known(merged[i].ifaces[m])
+      \* directive definitions: argument types are known input types, enum-spelled defaults name a value of the (merged) enum
+      dirRefsOk == \A d \in 1..Len(dd) : \A a \in 1..Len(dd[d].t.args) : known(Inner(dd[d].t.args[a].type))
+      dirPosOk == \A d \in 1..Len(dd) : \A a \in 1..Len(dd[d].t.args) : kindOf(Inner(dd[d].t.args[a].type)) \in {"scalar", "enum", "input"}
+      dirLitOk == \A d \in 1..Len(dd) : \A a \in 1..Len(dd[d].t.args) :
+                     LET x == dd[d].t.args[a] IN
+                     ("lit" \in DOMAIN x /\ kindOf(Inner(x.type)) = "enum") => \E v \in 1..Len(byName(Inner(x.type)).values) : byName(Inner(x.type)).values[v].name = x.lit
       \* covariance of field types (3.1.2 Object type validation): same named type, an implementation of the interface or a member
       \* of the union, a list of a subtype, or the non-null version of a subtype
       RECURSIVE SubT(_, _)
@@ -153,13 +170,14 @@ Build(doc) ==
       conv(n) == IF ss = <<>> /\ n \in tnames /\ kindOf(n) = "object" THEN n ELSE ""
       mut == IF sx = <<>> THEN conv("Mutation") ELSE sx[1].target
       sub == conv("Subscription")
-  IN IF Dup(Names(ds)) \/ Len(ss) > 1 THEN [ok |-> FALSE, err |-> "SDLError", schema |-> <<>>]
+  IN IF Dup(Names(ds)) \/ Len(ss) > 1 \/ Dup([d \in 1..Len(dd) |-> dd[d].t.name]) THEN [ok |-> FALSE, err |-> "SDLError", schema |-> <<>>]
      ELSE IF extErr \/ (sx # <<>> /\ conv("Mutation") # "") THEN [ok |-> FALSE, err |-> "ExtensionError", schema |-> <<>>]   \* (a schema extension cannot re-define a root)
-     ELSE IF ~refsOk THEN [ok |-> FALSE, err |-> "SDLError", schema |-> <<>>]
+     ELSE IF ~refsOk \/ ~dirRefsOk THEN [ok |-> FALSE, err |-> "SDLError", schema |-> <<>>]
      ELSE IF mut # "" /\ mut \notin tnames THEN [ok |-> FALSE, err |-> "SDLError", schema |-> <<>>]
-     ELSE IF ~litOk THEN [ok |-> FALSE, err |-> "InvalidValue", schema |-> <<>>]
-     ELSE IF ~(q \in tnames /\ kindOf(q) = "object") \/ ~implOk \/ ~unionOk \/ ~posOk \/ (mut # "" /\ kindOf(mut) # "object") THEN [ok |-> FALSE, err |-> "SchemaError", schema |-> <<>>]
-     ELSE [ok |-> TRUE, err |-> "", schema |-> [query |-> q, mutation |-> mut, subscription |-> sub, types |-> merged]]
+     ELSE IF ~litOk \/ (dirPosOk /\ ~dirLitOk) THEN [ok |-> FALSE, err |-> "InvalidValue", schema |-> <<>>]
+     ELSE IF ~(q \in tnames /\ kindOf(q) = "object") \/ ~implOk \/ ~unionOk \/ ~posOk \/ ~dirPosOk \/ (mut # "" /\ kindOf(mut) # "object") THEN [ok |-> FALSE, err |-> "SchemaError", schema |-> <<>>]
+     ELSE [ok |-> TRUE, err |-> "", schema |-> [query |-> q, mutation |-> mut, subscription |-> sub, types |-> merged,
+                                                   directives |-> [d \in 1..Len(dd) |-> dd[d].t]]]
 \* rn: what build_schema(ignore_extensions = TRUE) must give: the document without its extension items
 RECURSIVE SumSeq(_)
 SumSeq(q) == IF q = <<>> THEN 0 ELSE Head(q) + SumSeq(Tail(q))
